@@ -42,7 +42,8 @@ class C19(Harness):
         return {"iteration": "1 dataset x 1 strategy x 1 fold, 4 flags + 3 store-state booleans symbolic", "resume": "2 datasets x 2 strategies x 2 folds, every failure point K in 1..total calls", "cv": ["KFold(2)", "SingleSplit", "PresplitFilesCV"]}
 
     def cells(self, tier):
-        out = [{"name": "iteration-%s" % cv, "kind": "iteration", "cv": cv, "cost": 2} for cv in ("single", "presplit")]
+        out = [{"name": "iteration-%s" % cv, "kind": "iteration", "cv": cv, "cost": 2} for cv in ("single", "presplit", "presplit-interleaved")]
+        out.append({"name": "registry-merge", "kind": "merge", "cost": 3, "max_validate": 8})
         for pot in (False, True):
             for savefit in (True, False):
                 out.append({"name": "resume-%s-%s" % ("train+test" if pot else "test", "savefit" if savefit else "nosave"), "kind": "resume", "pot": pot, "savefit": savefit, "cost": 5, "max_validate": 8})
@@ -61,6 +62,13 @@ class C19(Harness):
         if cell["kind"] == "iteration":
             names = ["overwrite_predictions", "predict_on_train", "save_fitted_strategies", "overwrite_fitted_strategies", "train_exists", "test_exists", "fit_exists"]
             return {n: ctx.fresh_bool(n) for n in names}
+        if cell["kind"] == "merge":
+            # which strategies / datasets take part in the first and in the second run over the same on-disk store
+            inp = {n: bool(ctx.fresh_bool(n)) for n in ("r1_s1", "r1_s2", "r1_dA", "r1_dB", "r2_s1", "r2_s2", "r2_dA", "r2_dB")}
+            for r in ("r1", "r2"):
+                if not (inp[r + "_s1"] or inp[r + "_s2"]) or not (inp[r + "_dA"] or inp[r + "_dB"]):
+                    ctx.assume(False)
+            return inp
         if cell["kind"] in ("resume", "fitonly"):
             K = ctx.fresh_int("K")
             ctx.assume(K >= 1)
@@ -74,7 +82,9 @@ class C19(Harness):
 
         n = 6
         df = pd.DataFrame({"dim_0": [float(1 + i + 10 * seed) for i in range(n)], "target": [float(3 * i + seed) for i in range(n)]})
-        if presplit:
+        if presplit == "interleaved":  # the pre-split labels need not form two blocks
+            df.index = ["test", "train", "train", "test", "train", "train"]
+        elif presplit:
             df.index = ["train"] * 4 + ["test"] * 2
         return df
 
@@ -86,7 +96,7 @@ class C19(Harness):
             return KFold(n_splits=2)
         if cvname == "single":
             return split.SingleSplit(test_size=2, shuffle=False)
-        return split.PresplitFilesCV()
+        return split.PresplitFilesCV()  # "presplit", "presplit-interleaved"
 
     def scenario(self, W, inp, cell):
         import logging
@@ -100,7 +110,36 @@ class C19(Harness):
             return self._resume(W, inp, cell)
         if kind == "fitonly":
             return self._fitonly(W, inp)
+        if kind == "merge":
+            return self._merge(W, inp)
         return self._ram(W)
+
+    def _merge(self, W, inp):
+        orch = W.load(ORCH)
+        res = W.load("sktime.benchmarking.results")
+        tasks = W.load("sktime.benchmarking.tasks")
+        strat = W.load("sktime.benchmarking.strategies")
+        data = W.load("sktime.benchmarking.data")
+        import warnings
+        from joblib import load
+
+        root = tempfile.mkdtemp(prefix="vf_c19_")
+        try:
+            out = {}
+            for r in ("r1", "r2"):
+                with warnings.catch_warnings():
+                    warnings.simplefilter("ignore")
+                    results = res.HDDResults(root)
+                dsets = [data.RAMDataset(self._data(W, seed=sd), nm) for nm, sd in (("dsA", 0), ("dsB", 1)) if inp["%s_d%s" % (r, nm[2:])]]
+                strategies = [strat.TSRStrategy(est.CountingRegressor(slope=sl), name=nm) for nm, sl in (("s1", 2.0), ("s2", 3.0)) if inp["%s_%s" % (r, nm)]]
+                est.STATE.update(n=0, K=None, fits=0, predicts=0, log=[])
+                o = orch.Orchestrator([tasks.TSRTask(target="target") for _ in dsets], dsets, strategies, self._mk(W, "kfold"), results)
+                o.fit_predict(overwrite_predictions=False, predict_on_train=False, save_fitted_strategies=False)
+                master = load(os.path.join(root, "results.pickle"))
+                out[r] = {"own": [sorted(results.strategy_names), sorted(results.dataset_names)], "master": [sorted(master.strategy_names), sorted(master.dataset_names)], "files": sorted(k for k in self._store(root))}
+            return out
+        finally:
+            shutil.rmtree(root, ignore_errors=True)
 
     def _iteration(self, W, inp, cell):
         orch = W.load(ORCH)
@@ -126,7 +165,7 @@ class C19(Harness):
             def save(self):
                 calls.append({"op": "save"})
 
-        df = self._data(W, presplit=cell["cv"] == "presplit")
+        df = self._data(W, presplit={"presplit": True, "presplit-interleaved": "interleaved"}.get(cell["cv"], False))
         est.STATE.update(n=0, K=None, fits=0, predicts=0, log=[])
         o = orch.Orchestrator([tasks.TSRTask(target="target")], [data.RAMDataset(df, "ds")], [strat.TSRStrategy(est.CountingRegressor(), name="st")], self._mk(W, cell["cv"]), Rec())
         out = {"raised": None}
@@ -323,12 +362,24 @@ class C19(Harness):
             want = ([] if skip else (["fitted"] if w_fit else []) + (["pred:train"] if w_train else []) + (["pred:test"] if w_test else [])) + ["save"]
             P.check("writes-exactly-the-missing-or-overwritten-records", ops == want, {"ops": ops, "want": want})
             P.check("writes-exactly-the-missing-or-overwritten-records", out["predicts"] == (0 if skip else int(w_train) + int(w_test)))
-            tr, te = [0, 1, 2, 3], [4, 5]
+            tr, te = ([1, 2, 4, 5], [0, 3]) if cell["cv"] == "presplit-interleaved" else ([0, 1, 2, 3], [4, 5])
             for c in out["calls"]:
                 if c["op"].startswith("pred:"):
                     idx = tr if c["op"] == "pred:train" else te
                     P.check("stored-record-is-honest", c["index"] == idx and c["y_true"] == [t[i] for i in idx] and c["strategy"] == "st" and c["dataset"] == "ds" and c["cv_fold"] == 0)
                     P.check("stored-record-is-honest", c["y_pred"] == self._honest((x, t), tr, idx))
+            return
+        if kind == "merge":
+            S1 = [n for n in ("s1", "s2") if inp["r1_" + n]]
+            D1 = [n for n in ("dsA", "dsB") if inp["r1_d" + n[2:]]]
+            S2 = [n for n in ("s1", "s2") if inp["r2_" + n]]
+            D2 = [n for n in ("dsA", "dsB") if inp["r2_d" + n[2:]]]
+            P.check("registry-equals-uninterrupted-run", out["r1"]["own"] == [S1, D1] and out["r1"]["master"] == [S1, D1], {"run": 1, "got": out["r1"]["own"]})
+            want = [sorted(set(S1 + S2)), sorted(set(D1 + D2))]
+            P.check("registry-equals-uninterrupted-run", out["r2"]["own"] == want, {"run": 2, "which": "results object", "got": out["r2"]["own"], "want": want})
+            P.check("registry-equals-uninterrupted-run", out["r2"]["master"] == want, {"run": 2, "which": "master file", "got": out["r2"]["master"], "want": want})
+            files = sorted({os.path.join(s_, d_, "%s_test_%d.csv" % (s_, f)) for (SS, DD) in ((S1, D1), (S2, D2)) for s_ in SS for d_ in DD for f in (0, 1)})
+            P.check("final-store-equals-uninterrupted-run", out["r2"]["files"] == files, {"files": out["r2"]["files"], "want": files})
             return
         if kind == "fitonly":
             K = inp["K"]
